@@ -459,6 +459,100 @@ def config_history_twin(chk, cc):
         shutil.rmtree(tmp, ignore_errors=True)
 
 
+def qha_layer_wiring(chk, rng):
+    """What reaches the QHA layer: (a) the real QHACalculatorAdapter._load_qha_calculator hands every grid setting of the settings file
+    to the QHA calculator unchanged (identical objects) on top of qha's own defaults, and the phonon data object unchanged to read_input;
+    (b) the real QHACalculator.read_input places volumes, static energies, frequencies [volume, q, mode], weights and the formula-unit
+    number from the right fields of the data object (symbolic contents)."""
+    import cij.core.qha_adapter as qa
+    import cij.io.traditional.models as md
+    from qha.settings import DEFAULT_SETTINGS
+    chk.encode(qa.QHACalculatorAdapter._load_qha_calculator, qa.QHACalculator.read_input)
+    keys = ["NT", "DT", "T_MIN", "NTV", "DELTA_P", "P_MIN", "volume_ratio", "order", "static_only", "DT_SAMPLE", "DELTA_P_SAMPLE"]
+    sentinels = {k: 9000.125 + 17 * i for i, k in enumerate(keys)}       # pairwise distinct, unlike any default
+    seen = {}
+
+    class Rec:
+        def __init__(self, settings):
+            seen["settings"] = dict(settings)
+            self.settings = dict(settings)
+            self.temperature_array = numpy.arange(10.0)
+            self.desired_pressures_gpa = numpy.arange(3.0)
+            self.temperature_sample_array = numpy.arange(3.0)
+            self.pressure_sample_array = numpy.arange(3.0)
+            self.where_negative_frequencies = None
+            self.v_ratio = 1.2
+
+        def read_input(self, x):
+            seen["input"] = x
+
+        def refine_grid(self):
+            pass
+
+        def desired_pressure_status(self):
+            pass
+    marker = object()
+    fails = []
+    try:
+        import logging
+        logging.disable(logging.CRITICAL)
+        with patched((qa, {"QHACalculator": Rec})):
+            qa.QHACalculatorAdapter._load_qha_calculator(dict(sentinels), marker)
+    except Exception as e:
+        fails.append("raises %s: %s" % (type(e).__name__, e))
+    finally:
+        logging.disable(logging.NOTSET)
+    if not fails:
+        got = seen.get("settings", {})
+        for k in keys:
+            if got.get(k) != sentinels[k]:
+                fails.append("setting %s does not reach the QHA calculator as given" % k)
+        for k, v in DEFAULT_SETTINGS.items():
+            if k not in keys and got.get(k) != v:
+                fails.append("qha default %s is altered to %r" % (k, got.get(k)))
+        if set(got) - set(DEFAULT_SETTINGS) - set(keys):
+            fails.append("extra settings %s" % sorted(set(got) - set(DEFAULT_SETTINGS) - set(keys)))
+        if seen.get("input") is not marker:
+            fails.append("read_input does not receive the phonon data object of the calculation")
+    chk.obligation("QHA layer: every grid setting reaches the QHA calculator unchanged on top of qha's defaults; read_input receives the data object",
+                   "unsat" if not fails else "sat", kind="wiring", detail=fails[:3])
+    if fails:
+        chk.violation("qha-layer:settings", "settings / data do not reach the QHA calculator as given: %s" % "; ".join(fails[:3]), {})
+    # (b) read_input on symbolic data
+    ctx = new_context()
+    nv, nq, np_ = 3, 2, 3
+    Vv = symvars("Vq", (nv,), positive=True)
+    Ev = symvars("Eq", (nv,))
+    Pv = symvars("Pq", (nv,))
+    W = symvars("wq", (nv, nq, np_))
+    wt = symvars("wtq", (nq,), positive=True)
+    vols = [md.VolumeData(Pv[i], Vv[i], Ev[i], [md.QPointData((0.0, 0.0, 0.1 * j), list(W[i, j])) for j in range(nq)]) for i in range(nv)]
+    qin = md.QHAInputData(nv, nq, np_, 7, np_ // 3, [md.QPointWeight((0.0, 0.0, 0.1 * j), wt[j]) for j in range(nq)], vols)
+    f2 = []
+    try:
+        calc = object.__new__(qa.QHACalculator)
+        qa.QHACalculator.read_input(calc, qin)
+        order = [next(i for i in range(nv) if Sym.of(v).same(Vv[i])) for v in calc._volumes]      # whatever order the layer keeps
+        if sorted(order) != list(range(nv)):
+            f2.append("volumes are not the file's volumes")
+        for pos, i in enumerate(order):
+            if not Sym.of(calc._static_energies[pos]).same(Ev[i]):
+                f2.append("static energy at position %d is not the energy of that volume block" % pos)
+            fr = numpy.asarray(calc._frequencies, dtype=object)
+            if fr.shape != (nv, nq, np_) or not all(Sym.of(fr[pos, j, k]).same(W[i, j, k]) for j in range(nq) for k in range(np_)):
+                f2.append("frequencies at position %d are not indexed [volume, q, mode] of that block" % pos)
+        if not all(Sym.of(a).same(b) for a, b in zip(numpy.asarray(calc._q_weights, dtype=object), wt)):
+            f2.append("q-point weights")
+        if calc._formula_unit_number != 7:
+            f2.append("formula unit number is %r instead of nm" % (calc._formula_unit_number,))
+    except Exception as e:
+        f2.append("raises %s: %s" % (type(e).__name__, e))
+    chk.obligation("QHA layer: read_input places volumes, energies, frequencies[volume, q, mode], weights and nm from the right fields (symbolic data)",
+                   "unsat" if not f2 else "sat", kind="wiring", detail=f2[:3])
+    if f2:
+        chk.violation("qha-layer:read-input", "QHACalculator.read_input mis-places the phonon data: %s" % "; ".join(f2[:3]), {})
+
+
 def main():
     tier = os.environ.get("VERIF_TIER", "quick")
     if len(sys.argv) > 1:
@@ -476,6 +570,7 @@ def main():
     run_case(chk, cc, fm, True, tier, rng)
     run_case(chk, cc, fm, False, tier, rng, system="cubic")
     config_history_twin(chk, cc)
+    qha_layer_wiring(chk, rng)
     # stage R(b): one real end-to-end run (catches constructor-level failures the stubs cannot see)
     if not _done[0]:
         import warnings
